@@ -1,5 +1,6 @@
 import Driver.Common
 import Model.Mdcev
+import Model.MdcevExt
 open Lean Drv Mdcev
 
 def parseVariant (s : String) : Except String Variant :=
@@ -23,6 +24,42 @@ def parseAlt (j : Json) : Except String (Alt Float) := do
 
 def parseAlts (j : Json) : Except String (List (Alt Float)) := do
   (← getArr j "alts").toList.mapM parseAlt
+
+/-- an expression as its parameter slots `[[name, bits], …]` -/
+def parsePExpr (j : Json) : Except String (PExpr Float) := do
+  (← asArr j).toList.mapM fun nv => do
+    let a ← asArr nv
+    match a.toList with
+    | [n, b] => pure ((← asStr n), (← asFloat b))
+    | _ => throw "bad-op"
+
+def parseOptPExpr (j : Json) : Except String (Option (PExpr Float)) :=
+  match j with
+  | Json.null => pure none
+  | v => do pure (some (← parsePExpr v))
+
+/-- `[[label, expr], …]` -/
+def parseLabelled (j : Json) : Except String (List (Int × PExpr Float)) := do
+  (← asArr j).toList.mapM fun ke => do
+    let a ← asArr ke
+    match a.toList with
+    | [k, e] => pure ((← asInt k), (← parsePExpr e))
+    | _ => throw "bad-op"
+
+def parseLabelledOpt (j : Json) : Except String (List (Int × Option (PExpr Float))) := do
+  (← asArr j).toList.mapM fun ke => do
+    let a ← asArr ke
+    match a.toList with
+    | [k, e] => pure ((← asInt k), (← parseOptPExpr e))
+    | _ => throw "bad-op"
+
+def optField (j : Json) (k : String) : Except String (Option Json) :=
+  match j.getObjVal? k with
+  | .ok Json.null => pure none
+  | .ok v => pure (some v)
+  | .error _ => throw "bad-op"
+
+def jPExpr (e : PExpr Float) : Json := jArr (e.map fun nv => jArr [jStr nv.1, fbits nv.2])
 
 def handle (j : Json) : Except String Json := do
   let op ← getStr j "op"
@@ -69,6 +106,29 @@ def handle (j : Json) : Except String Json := do
       | .error _ => throw "bad-op"
     pure (Json.mkObj [("kkt", jBool (kktB v scale budget tolB tolM alts xs lam)), ("lam", fbits lam),
       ("marginal", jFloats marg), ("objective", fbits (sumUtilities v scale alts xs)), ("objective_brute", brute)])
+  | "symbolic" =>
+    -- the formula of `utility_expression_one_alternative` on the values of the sub-expressions
+    let a ← parseAlt (← j.getObjVal? "alt")
+    let xs ← floatList (← j.getObjVal? "xs")
+    pure (Json.mkObj [("sym", jFloats (xs.map (symbolicU v scale a))), ("U", jFloats (xs.map (U v scale a)))])
+  | "update" =>
+    -- `_update_parameters_in_expressions`: the expressions a forecast reads, after the update
+    let betas ← parsePExpr (← j.getObjVal? "betas")
+    let m : Params Float := {
+      variant := v
+      baseline := (← parseLabelled (← j.getObjVal? "baseline"))
+      gamma := (← parseLabelledOpt (← j.getObjVal? "gamma"))
+      alpha := (← (← optField j "alpha").mapM parseLabelled)
+      scale := (← (← optField j "scale_expr").mapM parsePExpr)
+      weights := (← (← optField j "weights").mapM parsePExpr)
+      mu := (← parseLabelled (← j.getObjVal? "mu"))
+      prices := (← (← optField j "prices").mapM parseLabelled) }
+    pure (Json.mkObj [("exprs", jArr ((forecastExprs (updateModel betas m)).map jPExpr))])
+  | "gamma_report" =>
+    let gs ← (← getArr j "gammas").toList.mapM fun g => match g with
+      | Json.null => pure (none : Option Float)
+      | x => do pure (some (← asFloat x))
+    pure (Json.mkObj [("report", jNat (gammaReport gs))])
   | _ => throw "bad-op"
 
 def main : IO Unit := Drv.run handle
